@@ -609,7 +609,7 @@ impl Property for C02 {
     fn budget(&self, tier: Tier) -> (u32, usize) {
         match tier {
             Tier::Quick => (20_000, 8),
-            Tier::Thorough => (500_000, 16),
+            Tier::Thorough => (1_000_000, 16),
         }
     }
     fn run(&self, case: &RlCase) -> Report {
@@ -646,7 +646,7 @@ impl Property for C15 {
     fn budget(&self, tier: Tier) -> (u32, usize) {
         match tier {
             Tier::Quick => (20_000, 8),
-            Tier::Thorough => (500_000, 16),
+            Tier::Thorough => (1_000_000, 16),
         }
     }
     fn run(&self, case: &RlCase) -> Report {
